@@ -143,6 +143,20 @@ func driveProject(t *Tracer, r Rng, n int) {
 			if len(pts) > 1 && r.Chance(0.1) {
 				pts = append(pts, pts[0])
 			}
+			if err == nil && r.Chance(0.25) {
+				// a creeping run: neighbours in the list that differ by 1e-10 .. 1e-7 degrees and millimetres (dense
+				// telemetry of a hovering vehicle, the corners of a zoom-35 voxel) - each has its own projection
+				q := p
+				for j := r.Intn(4); j >= 0; j-- {
+					s := math.Pow(10, -float64(r.In(7, 10)))
+					q2, e2 := object.NewPoint(q.Lon()+s*float64(r.In(-3, 3)), q.Lat()+s*float64(r.In(-3, 3)), q.Alt()+0.001*float64(r.In(-2, 2)))
+					if e2 != nil {
+						break
+					}
+					pts = append(pts, q2)
+					q = q2
+				}
+			}
 		}
 		switch r.Intn(10) {
 		case 0, 1, 2, 3, 4, 5:
